@@ -153,7 +153,7 @@ class BezierCurve(BaseCurve):
         new_ctrlpoints = np.dot(matrix, self.ctrlpoints)
         return self.__class__(new_ctrlpoints)
 
-    def clean(self, tolerance: Optional[float] = 1e-9) -> BezierCurve:
+    def clean(self, tolerance: Optional[float] = 1e-12) -> BezierCurve:
         """Reduces at maximum the degree of the bezier curve.
 
         If ``tolerance = None``, then it don't verify the error
@@ -336,7 +336,7 @@ class PlanarCurve(BaseCurve):
         ymax = max(point[1] for point in self.ctrlpoints)
         return Box(Point2D(xmin, ymin), Point2D(xmax, ymax))
 
-    def clean(self, tolerance: Optional[float] = 1e-9) -> PlanarCurve:
+    def clean(self, tolerance: Optional[float] = 1e-12) -> PlanarCurve:
         """Reduces at maximum the degree of the bezier curve.
 
         If ``tolerance = None``, then it don't verify the error
